@@ -3,6 +3,13 @@ package main
 // props is the table of registered checks: which tests decide a property, how
 // many cases each tier runs and over how many processes.
 var props = map[string]propCfg{
+	"C01": {ID: "C01", Level: "exploration",
+		Tests: []testCfg{{Name: "TestC01", Quick: 9600, Thorough: 256000, QShards: 16, TShards: 16}},
+		Assumptions: []string{
+			"work a session can ask for is bounded by the generators (scripts <= 120 tokens, numeric arguments almost always <= 3 digits, buffers <= ~2k runes), so the 10 s watchdog is not honest slowness; a hang is only reported after it reproduces in a fresh child",
+			"an injected EOF / EIO is returned by the reader the library reads the terminal through (core.Stdin); a persistent fault answers every later read the same way",
+			"VISUAL/EDITOR are empty, so edit-command-line fails instead of launching an editor on the pty",
+		}},
 	"C02": {ID: "C02", Level: "exploration",
 		Tests: []testCfg{{Name: "TestC02", Quick: 12000, Thorough: 240000, QShards: 8, TShards: 16}},
 		Assumptions: []string{
